@@ -1,5 +1,6 @@
 From Coq Require Import ZArith List Extraction ExtrOcamlBasic.
-From Sky Require Import Num Result G_pdf M_Pdf.
+From Sky Require Import Num Result G_pdf M_Pdf M_PdfState.
 Extraction "model.ml" S_of S_terms sig_time_pd bkg_time_pd prof_call prof_int lt_is_on lt_between
   eh_band step_integral sh_hist bin_widths sh_pd psf_gauss psf_rayleigh
-  tp_time_oor sp_ra_oor sp_dec_oor eh_weight eh_zero_physics Z.of_nat Z.to_nat.
+  tp_time_oor sp_ra_oor sp_dec_oor eh_weight eh_zero_physics
+  calc_pd tinit srun sinit s_nodes smooth1 Z.of_nat Z.to_nat.
